@@ -229,9 +229,9 @@ class Builder:
                     self.splice_callback(f, t, mid, sid((tgt, None)), trans, fresh, depth)
                     work.append((tgt, None))
                 continue
-            if "{closure#" in p and p in db.fns and depth < 4:
+            if p in db.fns and depth < 4 and (t.path or "").startswith("wac_parser::"):
                 g = db.fns[p]
-                # a local closure taking the lexer: inline its automaton
+                # a local closure / helper function taking the lexer: inline its automaton
                 if any("lexer::Lexer" in g.local_ty(i) for i in range(1, g.arg_count + 1)):
                     self.splice(g, s, sid((tgt, None)), trans, fresh, depth)
                     work.append((tgt, None))
